@@ -24,7 +24,7 @@ head = sh("git rev-parse --short HEAD")[1].strip()
 for sid in ids:
     patch = root / sid / "patch.diff"
     # a change seeded for one property may be the business of another property's check (precedence: C13; evaluation under parentheses: C12)
-    prop = {"C05h": "C13", "C13j": "C12", "C03m": "C14", "C08m": "C04", "C13n": "C12", "C18m": "C07", "C02m": "C08", "C01q": "C05", "C08r": "C03", "C03r": "C14", "C20q": "C14", "C13r": "C12", "C18q": "C06", "C18r": "C01", "C04r": "C18", "C08q": "C02", "C01r": "C06", "C07s": "C08", "C11s": "C10", "C11t": "C17", "C17t": "C14", "C10t": "C11", "C17s": "C06", "C01u": "C05", "C01v": "C08", "C08u": "C03", "C06v": "C08", "C20v": "C02", "C09v": "C04", "C13u": "C12", "C13v": "C12", "C04v": "C02", "C10w": "C09"}.get(sid, sid[:3])
+    prop = {"C05h": "C13", "C13j": "C12", "C03m": "C14", "C08m": "C04", "C13n": "C12", "C18m": "C07", "C02m": "C08", "C01q": "C05", "C08r": "C03", "C03r": "C14", "C20q": "C14", "C13r": "C12", "C18q": "C06", "C18r": "C01", "C04r": "C18", "C08q": "C02", "C01r": "C06", "C07s": "C08", "C11s": "C10", "C11t": "C17", "C17t": "C14", "C10t": "C11", "C17s": "C06", "C01u": "C05", "C01v": "C08", "C08u": "C03", "C06v": "C08", "C20v": "C02", "C09v": "C04", "C13u": "C12", "C13v": "C12", "C04v": "C02", "C10w": "C09", "C19i": "C01"}.get(sid, sid[:3])
     rc, _ = sh("git apply --check %s" % patch)
     how = "plain"
     if rc != 0:
